@@ -1353,7 +1353,11 @@ fn cmd_check(scenarios: &[Scenario], prop: &str, tier: &str) -> i32 {
         .collect();
     violations.retain(|f| {
         if let Some(k) = known_match(&known, prop, &f.oracle, &f.msg) {
-            known_lines.push(format!("KNOWN-FINDING: property={prop} {}", k.what));
+            // one line per listed finding, however many runs hit it
+            let line = format!("KNOWN-FINDING: property={prop} {}", k.what);
+            if !known_lines.iter().any(|l| l.starts_with(&line)) {
+                known_lines.push(line);
+            }
             false
         } else {
             true
